@@ -94,7 +94,11 @@ let print_rc kind h =
 let run_l2 id kind hooks shape events =
   let hk = if hooks = "old" then hK_old else hK_fixed in
   let (h0, o) = build kind shape in
-  Printf.printf "CASE %s copyable=%b hooks_ok=%b\n" id (copyable depth h0 o kind) (hooks_ok hk);
+  (* copyable = the hypotheses of the general theorems (copyable_g: shared objects closed, separated,
+     every reference counted - the object may hold the LAST references to file and compressor);
+     slack = the stronger hypothesis of the first generation of theorems (an outside holder exists) *)
+  Printf.printf "CASE %s copyable=%b slack=%b hooks_ok=%b\n" id
+    (copyable_g (nat_of_int 1) depth h0 o kind) (copyable depth h0 o kind) (hooks_ok hk);
   let h = ref h0 and c = ref None and dead = ref false in
   let addr_of = function 'O' -> Some o | _ -> !c in
   List.iter (fun ev ->
